@@ -70,6 +70,62 @@ Section Proofs.
     unfold Refine.refine. intros H A S P Hp Hu. destruct (shelxl _) as [code f3]. destruct (result_ok code f3); [|discriminate].
     injection H as <- <- _. rewrite A, S, P. apply insert_after_unit_spec; assumption.
   Qed.
+
+  (* ---- backup on / off, and the model in memory ---- *)
+  Notation refine_b := (refine_b shelxl parse render is_acta is_unit set_cycles).
+
+  (* with the backup switched on, refine_b is the protocol above *)
+  Theorem refine_b_backup cycles lines f :
+    let '(o, f', ins, _) := refine_b true cycles lines f in refine cycles lines f = (o, f', ins).
+  Proof.
+    unfold Refine.refine_b, Refine.refine. destruct (shelxl _) as [code f3]. destruct (result_ok code f3); reflexivity.
+  Qed.
+
+  (* without backup a failed run leaves the files exactly as SHELXL left them: nothing is restored, in particular not the backup file
+     of an earlier run (whatever f FBak holds) *)
+  Theorem nobackup_failure_restores_nothing cycles lines f o f' ins mem : refine_b false cycles lines f = (o, f', ins, mem) -> o = Failed ->
+    f' = snd (shelxl (upd_fs f FIns (Some ins))).
+  Proof.
+    unfold Refine.refine_b. intros H Ho.
+    set (lines1 := match cycles with Some n => set_cycles n lines | None => lines end) in *.
+    set (ins0 := render (without_acta is_acta lines1)) in *.
+    destruct (shelxl (upd_fs f FIns (Some ins0))) as [code f3] eqn:E.
+    destruct (result_ok code f3).
+    - injection H as <- _ _ _. discriminate.
+    - injection H as _ <- <- _. rewrite E. reflexivity.
+  Qed.
+
+  (* the model in memory after a failed run still holds every instruction, ACTA included (behind UNIT) *)
+  Lemma find_acta_true l a : find_acta is_acta l = Some a -> is_acta a = true /\ In a l.
+  Proof. unfold find_acta. intros H. apply find_some in H. destruct H as [I T]. split; assumption. Qed.
+
+  Lemma insert_after_unit_In a l : existsb is_unit l = true -> In a (insert_after_unit is_unit a l).
+  Proof.
+    induction l as [|x r IH]; cbn [existsb insert_after_unit]; [discriminate|]. intros H.
+    destruct (is_unit x) eqn:U; [right; left; reflexivity|]. cbn [orb] in H. right. apply IH. exact H.
+  Qed.
+
+  Lemma insert_after_unit_keeps a l x : In x l -> In x (insert_after_unit is_unit a l).
+  Proof.
+    induction l as [|y r IH]; cbn [insert_after_unit]; [intros []|]. intros [<- | I].
+    - destruct (is_unit y); left; reflexivity.
+    - destruct (is_unit y); [right; right; exact I | right; apply IH; exact I].
+  Qed.
+
+  Theorem failure_keeps_model cycles lines f o f' ins mem backup : refine_b backup cycles lines f = (o, f', ins, mem) -> o = Failed ->
+    let lines1 := match cycles with Some n => set_cycles n lines | None => lines end in
+    (forall x, In x lines1 -> is_acta x = false -> In x mem) /\
+    (forall a, find_acta is_acta lines1 = Some a -> existsb is_unit (without_acta is_acta lines1) = true -> In a mem).
+  Proof.
+    unfold Refine.refine_b. intros H Ho. cbv zeta.
+    set (lines1 := match cycles with Some n => set_cycles n lines | None => lines end) in *.
+    destruct (shelxl _) as [code f3]. destruct (result_ok code f3).
+    - injection H as <- _ _ _. discriminate.
+    - injection H as _ _ _ <-. unfold memory_after_failure. split.
+      + intros x I N. destruct (find_acta is_acta lines1) as [a|]; [|exact I].
+        apply insert_after_unit_keeps. unfold without_acta. apply filter_In. split; [exact I | rewrite N; reflexivity].
+      + intros a A U. rewrite A. apply insert_after_unit_In. exact U.
+  Qed.
 End Proofs.
 
 (* top-level statements (everything the Section abstracted over is quantified explicitly) *)
@@ -167,4 +223,37 @@ Example refine_example :
   let is_acta := fun x : str => if list_eq_dec Ascii.ascii_dec x (lit "ACTA") then true else false in
   let r := refine shelxl (fun s => [s]) (fun l => concat l) is_acta (fun _ => false) (fun _ l => l) (Some 5%nat) [lit "UNIT 1"; lit "ACTA"; lit "L.S. 4"] f0 in
   fst (fst r) = Failed /\ snd (fst r) FRes = f0 FRes /\ snd (fst r) FBak = None /\ snd r = lit "UNIT 1L.S. 4".
+Proof. cbv zeta. repeat split; vm_compute; reflexivity. Qed.
+
+(* ---- backup on / off and the model in memory: top-level statements ---- *)
+Theorem refine_b_backup_is_refine (shelxl : fs -> Z * fs) (parse : str -> list str) (render : list str -> str) (is_acta is_unit : str -> bool)
+  (set_cycles : nat -> list str -> list str) (cycles : option nat) (lines : list str) (f : fs) :
+  let '(o, f', ins, _) := refine_b shelxl parse render is_acta is_unit set_cycles true cycles lines f in
+  refine shelxl parse render is_acta is_unit set_cycles cycles lines f = (o, f', ins).
+Proof. apply refine_b_backup. Qed.
+
+Theorem refine_nobackup_failure_restores_nothing (shelxl : fs -> Z * fs) (parse : str -> list str) (render : list str -> str) (is_acta is_unit : str -> bool)
+  (set_cycles : nat -> list str -> list str) (cycles : option nat) (lines : list str) (f f' : fs) (o : outcome) (ins : str) (mem : list str) :
+  refine_b shelxl parse render is_acta is_unit set_cycles false cycles lines f = (o, f', ins, mem) -> o = Failed ->
+  f' = snd (shelxl (upd_fs f FIns (Some ins))).
+Proof. apply nobackup_failure_restores_nothing. Qed.
+
+Theorem refine_failure_keeps_model (shelxl : fs -> Z * fs) (parse : str -> list str) (render : list str -> str) (is_acta is_unit : str -> bool)
+  (set_cycles : nat -> list str -> list str) (cycles : option nat) (lines : list str) (f f' : fs) (o : outcome) (ins : str) (mem : list str) (backup : bool) :
+  refine_b shelxl parse render is_acta is_unit set_cycles backup cycles lines f = (o, f', ins, mem) -> o = Failed ->
+  let lines1 := match cycles with Some n => set_cycles n lines | None => lines end in
+  (forall x, In x lines1 -> is_acta x = false -> In x mem) /\
+  (forall a, find_acta is_acta lines1 = Some a -> existsb is_unit (without_acta is_acta lines1) = true -> In a mem).
+Proof. apply failure_keeps_model. Qed.
+
+(* a backup file of an earlier run ("OLDER") lies around; the run without backup fails and leaves an empty .res: nothing is copied over it,
+   and the model in memory has its ACTA back behind UNIT *)
+Example nobackup_example :
+  let shelxl := fun g : fs => (1%Z, upd_fs g FRes (Some [])) in
+  let f0 : fs := fun n => match n with FRes => Some (lit "RESULT OF THE FIRST RUN") | FBak => Some (lit "OLDER") | _ => None end in
+  let is_acta := fun x : str => if list_eq_dec Ascii.ascii_dec x (lit "ACTA") then true else false in
+  let is_unit := fun x : str => if list_eq_dec Ascii.ascii_dec x (lit "UNIT 1") then true else false in
+  let r := refine_b shelxl (fun s => [s]) (fun l => concat l) is_acta is_unit (fun _ l => l) false None [lit "TITL"; lit "UNIT 1"; lit "L.S. 4"; lit "ACTA"] f0 in
+  fst (fst (fst r)) = Failed /\ snd (fst (fst r)) FRes = Some [] /\ snd (fst (fst r)) FBak = Some (lit "OLDER")
+  /\ snd r = [lit "TITL"; lit "UNIT 1"; lit "ACTA"; lit "L.S. 4"].
 Proof. cbv zeta. repeat split; vm_compute; reflexivity. Qed.
